@@ -18,6 +18,9 @@ import explore as E  # noqa: E402
 def run_one(plan, seed, choices=None, max_steps=6000):
     if choices is not None:
         chooser = Sc.replay_chooser(choices)
+    elif seed % 10 == 9:
+        # the user threads rush ahead: everybody else moves only when they are blocked
+        chooser = Sc.starving_chooser(seed, victim_role=("worker", "feeder", "manager", "thread"))
     elif seed % 5 == 4:
         chooser = Sc.starving_chooser(seed, victim_role="user")
     elif seed % 5 in (2, 3):
